@@ -28,7 +28,7 @@ Definition str_ok (l : list N) : Prop := Forall (fun c => c < 1114112) l.
 Inductive exn :=
   | ValueError | UnicodeEncodeError | BinasciiError (* binascii.Error *) | StructError (* struct.error *)
   | RuntimeError | AssertionError | TypeError | PlainException (* raise Exception(...) *)
-  | KeyError | IndexError | OverflowError
+  | KeyError | IndexError | OverflowError | AttributeError
   | OracleMissing (* used only by the table-driven oracles of Model/AuthRun.v *)
   | OtherExn (* any other class; never raised by the model *).
 Inductive result (A : Type) := Ok (a : A) | Raise (e : exn).
@@ -275,6 +275,19 @@ Record scram_extra := {
 }.
 (* AuthScram state kept between CHALLENGE and WELCOME: _auth_message, _salted_password *)
 Record scram_state := { ss_auth_message : bytes; ss_salted_password : bytes }.
+(* the attributes of an AuthScram object that on_challenge / on_welcome read and write; None = attribute not set *)
+Record scram_obj := { so_nonce : option str; so_am : option bytes; so_sp : option bytes }.
+Definition scram_fresh : scram_obj := {| so_nonce := None; so_am := None; so_sp := None |}.
+(* reading the authextra property (what HELLO carries) fixes the client nonce once *)
+Definition scram_obj_authextra (fresh_nonce : str) (o : scram_obj) : scram_obj :=
+  match so_nonce o with
+  | None => {| so_nonce := Some fresh_nonce; so_am := so_am o; so_sp := so_sp o |}
+  | Some _ => o
+  end.
+Inductive scram_op :=
+  | OpAuthextra (fresh_nonce : str)          (* the authextra property is read (HELLO); os.urandom yields fresh_nonce *)
+  | OpChallenge (x : scram_extra)            (* on_challenge(session, Challenge("scram", x)) *)
+  | OpWelcome (sig : option pyval).          (* on_welcome(session, authextra); None: no "scram_server_signature" key *)
 Inductive welcome_verdict := Accept (* returns None *) | Deny (* returns the error string -> session ABORTs *).
 
 Inductive authmethod := MScram | MCryptosign | MCryptosignProxy | MWampCra | MAnonymous | MAnonymousProxy | MTicket.
@@ -404,6 +417,76 @@ Section Glue.
   Definition scram_on_welcome (st : scram_state) (sig : pyval) : result welcome_verdict :=
     alleged <- b64decode sig ;;
     if list_eqb (scram_server_signature st) alleged (* hmac.compare_digest *) then Ok Accept else Ok Deny.
+
+  (* ---- the AuthScram OBJECT over a history of calls ----
+     __init__ sets only _args and _client_nonce = None; _auth_message and _salted_password do not exist until
+     on_challenge assigns them (the first right after the AuthMessage is assembled, the second after the KDF
+     returned).  on_welcome reads both: a missing attribute is an AttributeError, which the session turns into
+     ABORT (protocol.py, WELCOME errback).  [so_nonce] = None until the authextra property has been read. *)
+  Definition scram_kdf (decode_salt : bool) (pw : bytes) (x : scram_extra) : result bytes :=
+    if list_eqb (sx_kdf x) (lit "argon2id-13") then
+      match sx_memory x with
+      | None => Raise ValueError
+      | Some m => hash_argon2id13_secret pw (sx_salt x) (sx_iterations x) m
+      end
+    else if list_eqb (sx_kdf x) (lit "pbkdf2") then hash_pbkdf2_secret decode_salt pw (sx_salt x) (sx_iterations x)
+    else Raise RuntimeError.
+  Definition scram_obj_on_challenge (decode_salt : bool) (password authid : str) (x : scram_extra) (o : scram_obj)
+    : scram_obj * result bytes :=
+    match so_nonce o with
+    | None => (o, Raise AssertionError)                       (* assert self._client_nonce is not None *)
+    | Some cnonce =>
+      match utf8_encode password with Raise e => (o, Raise e) | Ok pw =>
+      match SASLPREP authid with Raise e => (o, Raise e) | Ok aid =>
+      match ascii_encode (scram_auth_message_str aid cnonce x) with Raise e => (o, Raise e) | Ok am =>
+      let o1 := {| so_nonce := so_nonce o; so_am := Some am; so_sp := so_sp o |} in      (* self._auth_message = ... *)
+      match scram_kdf decode_salt pw x with Raise e => (o1, Raise e) | Ok salted =>
+      let o2 := {| so_nonce := so_nonce o; so_am := Some am; so_sp := Some salted |} in  (* self._salted_password = ... *)
+      match scram_client_proof salted am with
+      | Raise e => (o2, Raise e)
+      | Ok proof => (o2, Ok (b64encode proof))
+      end end end end end
+    end.
+  (* on_welcome on the object; [sig] = None when authextra has no "scram_server_signature" (KeyError).
+     Source order: the signature is decoded first, then _salted_password is read, then _auth_message. *)
+  Definition scram_obj_on_welcome (o : scram_obj) (sig : option pyval) : result welcome_verdict :=
+    match sig with
+    | None => Raise KeyError
+    | Some s =>
+      alleged <- b64decode s ;;
+      match so_sp o with
+      | None => Raise AttributeError
+      | Some sp =>
+        match so_am o with
+        | None => Raise AttributeError
+        | Some am =>
+          if list_eqb (HMAC256 (HMAC256 sp (lit "Server Key")) am) alleged then Ok Accept else Ok Deny
+        end
+      end
+    end.
+
+  (* a history of calls on ONE AuthScram object (password and authid are constructor arguments).
+     Output per call: the reply octets of on_challenge; [1] / [0] for on_welcome returning None / the error string;
+     [] for reading authextra. *)
+  Definition scram_obj_step (decode_salt : bool) (password authid : str) (o : scram_obj) (op : scram_op)
+    : scram_obj * result (list N) :=
+    match op with
+    | OpAuthextra n => (scram_obj_authextra n o, Ok [])
+    | OpChallenge x => scram_obj_on_challenge decode_salt password authid x o
+    | OpWelcome sig =>
+      (o, match scram_obj_on_welcome o sig with
+          | Ok Accept => Ok [1] | Ok Deny => Ok [0] | Raise e => Raise e
+          end)
+    end.
+  Fixpoint scram_obj_run (decode_salt : bool) (password authid : str) (o : scram_obj) (ops : list scram_op)
+    : scram_obj * list (result (list N)) :=
+    match ops with
+    | [] => (o, [])
+    | op :: r =>
+      let '(o1, out) := scram_obj_step decode_salt password authid o op in
+      let '(o2, outs) := scram_obj_run decode_salt password authid o1 r in
+      (o2, out :: outs)
+    end.
 
   (* auth.py: derive_scram_credential with an explicit 16-octet salt: (stored-key, server-key) before hexlify;
      time_cost 4096, memory_cost 512 *)
